@@ -409,6 +409,87 @@ def run_ndict(case):
     return hist
 
 
+# ---------------------------------------------------------------- List(List(...List(T))) of any depth
+def deep_val(r):
+    return [deep_val(x) for x in r] if isinstance(r, list) else val(r)
+
+
+def deep_init(vk, r):
+    return [deep_init(vk, x) for x in r] if isinstance(r, list) else raw_init(vk, r)
+
+
+def deep_enc(v):
+    return [deep_enc(x) for x in v] if isinstance(v, list) else atom(v)
+
+
+def deep_attach(rec, v):
+    if isinstance(v, list):
+        rec.attach(v, rec.on_outer)
+        for x in v:
+            deep_attach(rec, x)
+
+
+def run_deep(case):
+    def mk():
+        t = INNER[case["vk"]]
+        for mn, mx in reversed(case["bounds"]):          # bounds are listed from the outermost level inwards
+            t = List(t, **list_kw(mn, mx))
+        return t
+    owner = cls_for(("deep", case["vk"], json_key(case["bounds"])), mk)()
+    owner.x = deep_init(case["vk"], case["init"])
+    rec = Rec()
+    hist = []
+    for op in case["ops"]:
+        deep_attach(rec, owner.x)
+        rec.reset()
+        out = "Ok"
+        try:
+            if op[0] == "Assign":
+                owner.x = deep_val(op[1])
+            else:
+                tl = owner.x
+                for j in op[1]:
+                    if not isinstance(tl, list):
+                        raise TypeError("the path leaves the lists")
+                    if not 0 <= j < len(tl):
+                        raise IndexError("no such inner list")
+                    tl = tl[j]
+                if not isinstance(tl, list):
+                    raise TypeError("the path leaves the lists")
+                g = op[2]
+                k = g[0]
+                if k == "GAppend":
+                    tl.append(deep_val(g[1]))
+                elif k == "GExtend":
+                    tl.extend([deep_val(r) for r in g[1]])
+                elif k == "GInsert":
+                    tl.insert(g[1], deep_val(g[2]))
+                elif k == "GSetInt":
+                    tl[g[1]] = deep_val(g[2])
+                elif k == "GSetSlice":
+                    tl[L.sl(g[1])] = [deep_val(r) for r in g[2]]
+                elif k == "GDelInt":
+                    del tl[g[1]]
+                elif k == "GDelSlice":
+                    del tl[L.sl(g[1])]
+                elif k == "GPop":
+                    tl.pop() if g[1] is None else tl.pop(g[1])
+                elif k == "GReverse":
+                    tl.reverse()
+                elif k == "GClear":
+                    tl.clear()
+                else:
+                    raise ValueError(k)
+        except Exception as e:  # noqa
+            out = exn(e)
+        hist.append({"out": out, "after": deep_enc(owner.x), "nev": rec.n})
+    return hist
+
+
+def json_key(x):
+    return tuple(tuple(b) for b in x)
+
+
 # ---------------------------------------------------------------- inventory of mutating methods
 NONMUT = {
     "list": {"__add__", "__class__", "__class_getitem__", "__contains__", "__delattr__", "__dir__", "__doc__", "__eq__",
@@ -447,7 +528,8 @@ def run_mutators():
 
 def main():
     p = dlib.load()
-    fn = {"list": run_list, "set": run_set, "dict": run_dict, "nested": run_nested, "ndict": run_ndict}
+    fn = {"list": run_list, "set": run_set, "dict": run_dict, "nested": run_nested, "ndict": run_ndict,
+          "deep": run_deep}
     if isinstance(p, list):              # vlib.hist passes the bare list of cases; each names its kind
         dlib.dump([fn[c["kind"]](c) for c in p])
     elif p["mode"] == "mutators":
